@@ -87,7 +87,7 @@ def run(chk):
     chk.extra["laws_checked_on_impl"] = laws
     # versions that reached the program through UnmarshalText out of ONE reused read buffer (later overwritten) take part in the
     # order exactly like the versions parsed from fresh strings
-    texts = [str(e).encode() + b":" + u + (b"-" + r if r else b"") for e, u, r in vs if e < 2**63 and u[:1].isdigit() and b" " not in u + r and len(u) + len(r) < 200]
+    texts = [str(e).encode() + b":" + u + (b"-" + r if r else b"") for e, u, r in vs if e < 2**64 and u[:1].isdigit() and b" " not in u + r and len(u) + len(r) < 200]
     bc = [("vcmpbuf", [rng.choice(texts), rng.choice(texts), rng.choice(texts)]) for _ in range(chk.n(1500, 30000))]
     bi = chk.run_impl(bc)
     chk.record("decoded-from-a-reused-buffer", bc, bi, lambda c, r: r.startswith("same"))
